@@ -285,6 +285,62 @@ def gen_received(rng):
     return b.c
 
 
+def gen_tamper(rng):
+    """field-mutation stream: every genuine signed operation is re-offered with exactly one (or two) of
+    {children, value, address, source} altered and the signature bytes kept; restricted registers must
+    refuse every variant -- directly, after the genuine one, inside a ready-made register, via verified_merge"""
+    b = B("tamper")
+    meta, owner = rng.choice([1, 2]), 0
+    addr = (meta, owner)
+    r = b.reg(meta, owner, rng.choice([[1], [1, 2], []]))
+    base_nodes = rand_dag(b, rng, rng.randrange(3, 6), dangling=0.1)
+    genuine, variants = [], []
+    for _ in range(rng.randrange(1, 4)):
+        nd = rng.choice(base_nodes[1:]) if rng.random() < 0.8 else base_nodes[0]
+        src = rng.choice([0, 1])
+        g = b.op(addr, nd, src)
+        genuine.append(g)
+        keep = {"by": src, "addr": list(addr), "node": nd, "source": src}
+        n = b.c["nodes"][nd]
+        ch, val = list(n["children"]), n["val"]
+        # children altered, value kept
+        alts = []
+        others = [{"n": j} for j in base_nodes if j < nd and {"n": j} not in ch]
+        if others:
+            alts.append(ch + [rng.choice(others)])
+        if ch:
+            alts.append(ch[1:])
+            alts.append([])
+        alts.append(ch + [{"x": rng.randrange(4, 8)}])
+        nodes_c = [b.node(a, val) for a in alts]
+        # value altered, children kept
+        nodes_v = [b.node(ch, (val + [7]) if isinstance(val, list) else [1]), b.node(ch, val[:-1] if isinstance(val, list) and val else [9])]
+        for nn in nodes_c + nodes_v:
+            variants.append(b.op(addr, nn, src, keep))
+        # address altered (meta / owner), source altered
+        for a2 in [(meta + 1, owner), (meta, 1)]:
+            variants.append(b.op(a2, nd, src, keep))
+        for s2 in [x for x in (0, 1, 2, 3) if x != src]:
+            variants.append(b.op(addr, nd, s2, keep))
+        # pairs
+        variants.append(b.op((meta, 1), rng.choice(nodes_c), src, keep))
+        variants.append(b.op(addr, rng.choice(nodes_c + nodes_v), rng.choice([x for x in (0, 1) if x != src]), keep))
+    a, bb, cc, dd = b.replica(r), b.replica(r), b.replica(r), b.replica(r)
+    seq = genuine + variants
+    if rng.random() < 0.5:
+        rng.shuffle(seq)
+    for o in seq:
+        b.step("add", a, o)
+    for o in rng.sample(variants, min(len(variants), 8)):
+        b.step("add", bb, o)
+    b.step(rng.choice(["merge", "vmerge"]), cc, a)
+    b.init_ops(dd, genuine + rng.sample(variants, rng.randrange(1, 4)))
+    b.step("verify", dd)
+    b.step("vmerge", cc, dd)
+    b.check("converged", [a, cc])
+    return b.finish_all()
+
+
 def gen_exhaustive(rng, k):
     """every delivery order of k operations (one replica per order), plus one order with duplication"""
     b = B("exhaustive")
@@ -427,6 +483,8 @@ def gen(ctx):
         cases.append(gen_laws(rng))
     for _ in range(40 if quick else 400):
         cases.append(gen_received(rng))
+    for _ in range(40 if quick else 400):
+        cases.append(gen_tamper(rng))
     for _ in range(3 if quick else 12):
         cases.append(gen_exhaustive(rng, 3))
     for _ in range(2 if quick else 10):
